@@ -169,6 +169,17 @@ CHECKS = {
         note='Either answer is accepted when the first nested real-fault record is of the undecoded kind; with a '
              'non-zero result pid/protection may be absent.',
         technique='generated-window workload + field-level reference oracle on the emitted composite traces'),
+    'C16': dict(
+        category='exploration', design_ref='DESIGN.md section 4, C16',
+        text='Runtime monitoring with a lock-step reference decoder written from the field table: mandatory keys + {empty, '
+             'every single, every pair, all 31, random} subsets of the optional keys, decomposed messages from a grammar '
+             '(every subset of the argument/placeholder inner keys), every defined trace-identifier word (namespaces x '
+             'types x 64 flag-byte combinations x flag values incl. zero and combinations) go through the real '
+             'from_raw_log_event and, end to end, through a v3 file; decoding must not raise and every field '
+             '(values, symbolic names, defaults) must equal the reference; trace identifiers must re-pack.',
+        note='Trusted: vlib/logs.py key->field table, defaults and name tables. Values in range (sec < 2^31).',
+        technique='structured subset enumeration through the real decoder + reference-decoder oracle + repack '
+                  '(inverse) oracle'),
 }
 
 PENDING_REASON = 'check not yet built in this session (design in DESIGN.md section 4); not claimed until it exists'
